@@ -10,7 +10,7 @@ class C02(SeqProp):
     id = "C02"
     props_file = "Props/C02.v"
     focus = "mix"
-    quick_cases = 420
+    quick_cases = 800
     thorough_cases = 6000
     assumptions = [
         "fall times of pulses (FFT modulation) enter the model as oracle inputs",
